@@ -47,6 +47,8 @@ SCRIPTS = {
     "bursts": [("c", [(0, 100)]), ("c", [(0, 100)]), ("c", [(4, 3)]), ("s", [(0, 1200)]), ("s", [(0, 1200)]), ("s", [(0, 7)])],
     "empty_and_fin": [("c", [(0, 0)]), ("s", [(0, 10)]), ("c", [(0, 5), (4, 0)]), ("s", [(3, 1)])],
     "server_first": [("s", [(3, 40)]), ("c", [(0, 40)]), ("s", [(0, 40)])],
+    # 280 datagrams per direction: packet numbers pass 255/256 (one-byte encodings wrap), stream offsets pass 2^14
+    "long": [("c", [(0, 61)])] * 140 + [("s", [(0, 63)])] * 280 + [("c", [(4, 2)])] * 140,
 }
 
 FRAMES_BEFORE = FRAMES_K + ["CONNECTION_CLOSE", "CONNECTION_CLOSE_APP"]
@@ -64,12 +66,16 @@ ALTS = {
     "after": FRAMES_K,
     "script": list(SCRIPTS),
     "stream_flags": ["off", "fin", "off+fin", "nolen", "nolen+off", "nolen+fin", "nolen+off+fin"],
+    # <pieces>:<order>:<p = one Initial per piece | s = one Initial>[:o<n> = every piece repeats the first n bytes of its successor]
     "ch_split": [f"{k}:{''.join(map(str, o))}:{'p' if p else 's'}" for k, cuts in (("2", (100,)), ("3", (50, 150)))
-                 for o in itertools.permutations(range(len(cuts) + 1)) for p in (False, True)],
+                 for o in itertools.permutations(range(len(cuts) + 1)) for p in (False, True)] +
+                [f"3:{''.join(map(str, o))}:{'p' if p else 's'}:o{ov}" for o in itertools.permutations(range(3)) for p in (False, True)
+                 for ov in (1, 40, 400)],
     "retry": [True, 63, 64, 96, 300],          # Retry with a 24-byte token / with a token of that many bytes (Token Length needs 2 bytes from 64 on)
     "token": [1, 63, 64, 300],                 # the first Initial already presents a token (from NEW_TOKEN) of that many bytes
     "zero_rtt": [True],
-    "vn": [True],                              # a Version Negotiation datagram answers the client's first Initial
+    "vn": [True],
+    "ch_ack_between": [True],                  # with a ClientHello in several Initial packets: the server's ACK-only Initial comes in between                              # a Version Negotiation datagram answers the client's first Initial
     "ncid": ["s8", "s8c8", "s20c4", "s1c1", "s1c1eq", "s8c8eq"],
     "v6": [True],
     # ns_close_<g>: nanosecond-resolution capture, consecutive datagrams g nanoseconds apart (within one microsecond; 1 and 130 ns
@@ -100,7 +106,7 @@ def to_model(sc):
         m["offered"] = [0x1303, suite] if suite != 0x1303 else [0x1303, 0x1301]
     elif off == "single":
         m["offered"] = [suite]
-    for k in ("ccid_len", "scid_len", "odcid_len", "coalesce", "retry", "zero_rtt", "vn"):
+    for k in ("ccid_len", "scid_len", "odcid_len", "coalesce", "retry", "zero_rtt", "vn", "ch_ack_between"):
         if k in sc:
             m[k] = sc[k]
     if sc.get("retry") not in (None, True, False):
@@ -120,8 +126,10 @@ def to_model(sc):
         f = sc["stream_flags"].split("+")
         m["stream_flags"] = {"len": "nolen" not in f, "off": "off" in f, "fin": "fin" in f, "offset": 1234 if "off" in f else 0}
     if "ch_split" in sc:
-        k, order, p = sc["ch_split"].split(":")
+        k, order, p = sc["ch_split"].split(":")[:3]
         m["ch_split"] = {"cuts": (100,) if k == "2" else (50, 150), "order": tuple(int(c) for c in order), "packets": p == "p"}
+        if sc["ch_split"].count(":") == 3:
+            m["ch_split"]["overlap"] = int(sc["ch_split"].rsplit(":o", 1)[1])
     if "ncid" in sc:
         n = sc["ncid"]
         d = {}
@@ -138,8 +146,7 @@ def to_model(sc):
 def valid(sc):
     if sc.get("zero_rtt") and sc.get("offered") in ("other_first", "grease_first", "chacha_first"):
         return False      # 0-RTT keys belong to the resumed suite, which the client offers first
-    if sc.get("zero_rtt") and sc.get("retry"):
-        return False
+    # (0-RTT packets sent after a Retry - RFC 9000 17.2.3 - are part of the menu: the pair zero_rtt x retry)
     if "stream_flags" in sc and "nolen" in sc["stream_flags"] and "after" in sc:
         return False      # a LEN-less STREAM frame extends to the end of the packet
     n = sc.get("ncid")
